@@ -54,7 +54,7 @@ def spec(th, seed):
             unit('cxx11', ['-DGLM_FORCE_CXX11'], lean=True), unit('cxx14', ['-DGLM_FORCE_CXX14'], lean=True),
             unit('pure', ['-DGLM_FORCE_PURE', '-mavx2', '-mfma'], lean=True),
             unit('all-plain', ['-DGLM_FORCE_SWIZZLE', '-DGLM_FORCE_SIZE_T_LENGTH', '-DGLM_FORCE_QUAT_DATA_WXYZ', '-DGLM_FORCE_CTOR_INIT', '-DGLM_FORCE_DEFAULT_ALIGNED_GENTYPES'], lean=True),
-            simd('sse3', lean=True), simd('ssse3', lean=True), simd('sse4.2', lean=True), simd('avx', lean=True), simd('sse4.1'),
+            simd('sse3', lean=True), simd('ssse3', lean=True), simd('sse4.2', lean=True), simd('avx', lean=True), simd('sse4.1', tag='.all-qualifiers'),
             simd('sse2', fs='clang'), simd('sse4.1', fs='clang', lean=True), simd('avx', fs='clang', lean=True), simd('avx2', fs='clang'),
             simd('sse2', fs='plainO0', lean=True), simd('avx2', fs='plainO3', lean=True),
             simd('sse2', ['-DGLM_FORCE_SWIZZLE'], '.swizzle-operators', fs='clang', lean=True),
@@ -75,7 +75,7 @@ def spec(th, seed):
                  'rgba/stpq aliases, &m[c], &m[c][r], value_ptr (const and non-const) addresses, then distinct tags are written through '
                  'operator[] / named members / value_ptr / raw bytes and read back through the other access paths and as a byte image '
                  '(objects live in a poisoned, guarded buffer), make_vecL(vecL), make_vecL/make_matCxR/make_matC/make_quat(ptr) round trips '
-                 'for the default qualifier, length() value and type; plus ~170 documented typedef names (type_precision.hpp, '
+                 'for the default qualifier, length() value and type; plus 82-158 (depending on the configuration) documented typedef names (type_precision.hpp, '
                  'type_aligned.hpp) and the struct of manual section 2.10. The facts are deterministic per build; the tag values come from a '
                  'random stream (random words, all-distinct ramps, one-hot and one-cold patterns, byte ramps)'),
         'assumptions': [
